@@ -61,7 +61,53 @@ let mop_of (s : string) : mop option =
 
 let unhex s = bytes_of_hex (if String.length s >= 1 && s.[0] = '=' then String.sub s 1 (String.length s - 1) else s)
 
-(* requests:  hdr <req|resp> <op>;<op>;...   |  field get|unset|set <subject> <key> [<value>] *)
+(* one object: ops as for implrun hdr, plus  hg T (header.get)  and  B n (n ballast headers) *)
+type xop = XOp of op | XHg of string | XBallast of int
+
+let xop_of (s : string) : xop =
+  match split_on ' ' s with
+  | ["hg"; t] -> XHg t
+  | ["B"; n] -> XBallast (int_of_string n)
+  | _ -> XOp (op_of s)
+
+let ballast_ops (n : int) : op list =
+  List.init n (fun i -> OSet (bytes_of_string ("Ballast-" ^ string_of_int i), VStr (bytes_of_string ("v" ^ string_of_int i))))
+
+let run_x (kd : kind) (st : hstate) (xs : xop list) : hstate * string list =
+  List.fold_left (fun (st, acc) x ->
+    match x with
+    | XOp o -> let (st', r) = step kd st o in (st', show_obs r :: acc)
+    | XHg t -> (st, show_rd (h_getfn st (bytes_of_string t)) :: acc)
+    | XBallast n ->
+      let (st', bad) = List.fold_left (fun (s, bad) o -> let (s', r) = step kd s o in (s', bad || r <> OOk)) (st, false) (ballast_ops n) in
+      (st', (if bad then "err" else "ok") :: acc)) (st, []) xs
+  |> fun (st, acc) -> (st, List.rev acc)
+
+(* several objects *)
+type mxop = MX of mop | MHg of obj * string | MBallast of obj * int | MScope
+
+let mxop_of (s : string) : mxop option =
+  match split_on ' ' s with
+  | ["hg"; t] -> let (o, n) = split_obj t in Some (MHg (o, n))
+  | ["B"; t] -> let (o, n) = split_obj t in Some (MBallast (o, int_of_string n))
+  | [x] when String.length x > 0 && x.[0] = '@' -> Some MScope
+  | [] -> None
+  | _ -> (match mop_of s with Some m -> Some (MX m) | None -> None)
+
+let kind_of_obj = function Req | Bereq -> KReq | _ -> KResp
+
+let run_mx (m : mstate) (xs : mxop list) : mstate * string list =
+  List.fold_left (fun (m, acc) x ->
+    match x with
+    | MX o -> let (m', r) = mstep m o in (m', show_obs r :: acc)
+    | MHg (o, t) -> (m, show_rd (h_getfn (m o) (bytes_of_string t)) :: acc)
+    | MBallast (o, n) ->
+      let (m', bad) = List.fold_left (fun (s, bad) y -> let (s', r) = mstep s (MOp (o, y)) in (s', bad || r <> OOk)) (m, false) (ballast_ops n) in
+      (m', (if bad then "err" else "ok") :: acc)
+    | MScope -> (m, "ok" :: acc)) (m, []) xs
+  |> fun (m, acc) -> (m, List.rev acc)
+
+(* requests:  hdr <req|resp> <op>;<op>;...   |  hdrmulti <pre> | <ops>  |  field get|unset|set <subject> <key> [<value>] *)
 let handle (req : string) : string =
   match String.index_opt req ' ' with
   | None -> "badreq"
@@ -73,33 +119,22 @@ let handle (req : string) : string =
         | None -> "badreq"
         | Some j ->
           let kd = (match String.sub rest 0 j with "req" -> KReq | "resp" -> KResp | _ -> failwith "kind") in
-          let ops = List.map op_of (split_on ';' (String.sub rest (j+1) (String.length rest - j - 1))) in
-          let (_, outs) = run kd st0 ops in
-          String.concat " " (List.map show_obs outs))
+          let ops = List.map xop_of (split_on ';' (String.sub rest (j+1) (String.length rest - j - 1))) in
+          let (_, outs) = run_x kd st0 ops in
+          String.concat " " outs)
      | "hdrmulti" ->
-       (* <pre-ops on req> | <ops> : the pre-ops run on req, then bereq is derived from req and the
-          response objects start empty (what TestProcessInit does), then the ops *)
        let pre, ops = (match String.index_opt rest '|' with
          | Some j -> String.sub rest 0 j, String.sub rest (j+1) (String.length rest - j - 1)
          | None -> failwith "bar") in
-       let pre_ops = List.filter_map mop_of (split_on ';' pre) in
-       let ops_l = List.filter (fun x -> String.trim x <> "") (split_on ';' ops) in
-       let (m1, o1) = mrun mst0 pre_ops in
-       let (m2, _) = mrun m1 [MDerive (Bereq, Req)] in
-       let mops = List.map mop_of ops_l in
-       let (_, o2) = mrun m2 (List.filter_map (fun x -> x) mops) in
-       (* scope switches reply "ok" on the implementation side *)
-       let rec weave ms os = (match ms, os with
-         | [], _ -> []
-         | None :: t, _ -> "ok" :: weave t os
-         | Some _ :: t, o :: os' -> show_obs o :: weave t os'
-         | Some _ :: _, [] -> failwith "weave") in
-       String.concat " " (List.map show_obs o1 @ ["|"] @ weave mops o2)
+       let parse l = List.filter_map mxop_of (List.filter (fun x -> String.trim x <> "") (split_on ';' l)) in
+       let (m1, o1) = run_mx mst0 (parse pre) in
+       let (m2, _) = mstep m1 (MDerive (Bereq, Req)) in
+       let (_, o2) = run_mx m2 (parse ops) in
+       String.concat " " (o1 @ ["|"] @ o2)
      | "field" ->
        (match split_on ' ' rest with
         | ["get"; s; k] -> show_rd (get_field (unhex s) (unhex k))
         | ["unset"; s; k] ->
-          (* the harness reads the header map afterwards: an empty result deletes the header *)
           (match unset_field (unhex s) (unhex k) with [] -> "D" | t -> "S" ^ hex_of_bytes t)
         | ["set"; s; k; v] -> "S" ^ hex_of_bytes (set_field (unhex s) (unhex k) (val_of v))
         | _ -> "badreq")
